@@ -1,73 +1,85 @@
 #!/venv/bin/python
-"""Run the checks against every seeded change (applied to a scratch copy of the package, never to /repo).
+"""Run the checks against every seeded change, in memory (the patch is applied to a copy of the sources held in
+a dict; /repo is never touched).
 
-usage: tools/seedcheck.py [seed-id ...] [--props C01,C02] [-v]
+usage: tools/seedcheck.py [seed-id ...] [--props=C01,C02] [-v] [--update]
 Prints, per seeded change, which properties' checks report a violation (and under which rule).
+--update writes the detection matrix to seeded/matrix.json and `detected_by` into each meta.json.
 """
 import json
 import os
-import shutil
-import subprocess
 import sys
-import tempfile
+from multiprocessing import Pool
 
 HERE = os.path.dirname(os.path.dirname(os.path.abspath(__file__)))
 sys.path.insert(0, HERE)
 import check  # noqa: E402
 from sa import model as sa_model  # noqa: E402
+from sa.audit import runner  # noqa: E402
+
+
+def one(args):
+    s, props = args
+    d = os.path.join(HERE, "seeded", s)
+    meta = json.load(open(os.path.join(d, "meta.json")))
+    files = runner.apply_unified_diff(runner.current_sources(), open(os.path.join(d, "patch.diff")).read())
+    if files is None:
+        return s, meta, None, ["PATCH-FAILED"]
+    overlay = runner.overlay_of(files)
+    hits, errs = [], []
+    for p in props:
+        try:
+            run, mod = check.analyse(p, "quick", None, overlay, None)
+            for e in run.errors:
+                errs.append("%s:ANALYSIS-ERROR(%s)" % (p, e[:70]))
+            vac = run.vacuous()
+            if vac and not run.violations():
+                errs.append("%s:ANALYSIS-ERROR(%s)" % (p, vac[0][:60]))
+            for o in run.violations():
+                hits.append((p, o.rule, o.construct, o.detail))
+        except sa_model.AnalysisError as err:
+            errs.append("%s:ANALYSIS-ERROR(%s)" % (p, str(err)[:80]))
+        except Exception as err:  # pylint: disable=broad-except
+            errs.append("%s:CRASH(%r)" % (p, err))
+    return s, meta, hits, errs
 
 
 def main():
     args = [a for a in sys.argv[1:] if not a.startswith("-")]
     verbose = "-v" in sys.argv
+    update = "--update" in sys.argv
     props = check.PROPS
     for a in sys.argv[1:]:
         if a.startswith("--props"):
             props = a.split("=", 1)[1].split(",")
-    seeds = sorted(os.listdir(os.path.join(HERE, "seeded")))
+    seeds = sorted(x for x in os.listdir(os.path.join(HERE, "seeded")) if os.path.isdir(os.path.join(HERE, "seeded", x)))
     if args:
         seeds = [s for s in seeds if s in args]
-    available = [p for p in props if os.path.exists(os.path.join(HERE, "sa", "rules", p.lower() + ".py"))]
-    missed = []
-    for s in seeds:
-        d = os.path.join(HERE, "seeded", s)
-        meta = json.load(open(os.path.join(d, "meta.json")))
-        tmp = tempfile.mkdtemp(prefix="seed_")
-        try:
-            shutil.copytree(os.path.join(sa_model.REPO, "icontract"), os.path.join(tmp, "icontract"))
-            r = subprocess.run(["patch", "-s", "-p1", "-d", tmp, "-i", os.path.join(d, "patch.diff")], capture_output=True, text=True)
-            if r.returncode != 0:
-                print("%s PATCH-FAILED %s" % (s, r.stdout + r.stderr))
-                continue
-            hits = []
-            errs = []
-            for p in available:
-                try:
-                    run, mod = check.analyse(p, "quick", tmp, None, None)
-                    for e in run.errors:
-                        errs.append("%s:ANALYSIS-ERROR(%s)" % (p, e[:70]))
-                    vac = run.vacuous()
-                    if vac and not run.violations():
-                        errs.append("%s:ANALYSIS-ERROR(%s)" % (p, vac[0][:60]))
-                    for o in run.violations():
-                        hits.append((p, o.rule, o.construct, o.detail))
-                except sa_model.AnalysisError as err:
-                    errs.append("%s:ANALYSIS-ERROR(%s)" % (p, str(err)[:80]))
-                except Exception as err:  # pylint: disable=broad-except
-                    errs.append("%s:CRASH(%r)" % (p, err))
-            target = meta.get("property", s[:3])
-            own = [h for h in hits if h[0] == target]
-            rules = sorted(set(h[1] for h in hits))
-            status = "DETECTED" if own else ("detected-elsewhere" if hits else "MISSED")
-            if not hits:
-                missed.append(s)
-            print("%-5s %-18s %-60s %s %s" % (s, status, meta.get("title", "")[:60], ",".join(rules), " ".join(errs)))
-            if verbose:
-                for h in hits:
-                    print("      %s %s: %s" % (h[1], h[2], h[3][:160]))
-        finally:
-            shutil.rmtree(tmp, ignore_errors=True)
-    print("missed: %s" % " ".join(missed))
+    with Pool(16) as pool:
+        results = pool.map(one, [(s, props) for s in seeds])
+    missed, matrix = [], {}
+    for s, meta, hits, errs in results:
+        if hits is None:
+            print("%s %s" % (s, errs))
+            continue
+        target = meta.get("property", s[:3])
+        own = [h for h in hits if h[0] == target]
+        rules = sorted(set(h[1] for h in hits))
+        status = "DETECTED" if own else ("detected-elsewhere" if hits else "MISSED")
+        if not own:
+            missed.append(s)
+        matrix[s] = {"property": target, "detected_by": sorted(set(h[0] for h in hits)), "rules": rules}
+        print("%-6s %-18s %-58s %s %s" % (s, status, meta.get("title", "")[:58], ",".join(rules)[:150], " ".join(errs)[:200]))
+        if verbose:
+            for h in hits:
+                print("      %s %s: %s" % (h[1], h[2], h[3][:160]))
+        if update:
+            meta["detected_by"] = matrix[s]["detected_by"]
+            meta["detected_by_rules"] = rules
+            json.dump(meta, open(os.path.join(HERE, "seeded", s, "meta.json"), "w"), indent=1)
+    print("not detected by the own property's check: %s" % " ".join(missed))
+    if update and not args:
+        json.dump(matrix, open(os.path.join(HERE, "seeded", "matrix.json"), "w"), indent=1, sort_keys=True)
 
 
 if __name__ == "__main__":
